@@ -75,7 +75,7 @@ def step (d : D) (op impl : String) : D × DrvOut :=
     match confs.mapM parseConf with
     | none => (d, { model := "bad-op" })
     | some f =>
-      let st := initialize f
+      let st := initSt f
       let sp : SpecSt := { cfg := f, wfOK := f.all validScheme }
       let (sp, v) := verdict sp false impl
       ({ st := st, sp := sp }, { model := if st.dead then panicScheme else fmtSt st, spec := v })
